@@ -89,8 +89,9 @@ impl SpeechGenerator {
             eprintln!("The speech generator has already synthesized some frames.");
         }
 
-        let mut buf = vec![0.0; (self.lf0.len() - self.next) * self.fperiod];
-        while self.generate_step(&mut buf[self.next * self.fperiod..]) > 0 {}
+        let start = self.next;
+        let mut buf = vec![0.0; (self.lf0.len() - start) * self.fperiod];
+        while self.generate_step(&mut buf[(self.next - start) * self.fperiod..]) > 0 {}
 
         buf
     }
